@@ -228,10 +228,15 @@ func (e *env) clusterKeys(ids []uint32) channel.Keys {
 func (e *env) buildFrame(w *WState, op Op) frame.Frame {
 	keys := make([]channel.Key, 0, len(w.Channels))
 	series := make([]telem.Series, 0, len(w.Channels))
+	var masked []channel.Key
+	defer func() { _ = masked }()
 	for _, id := range w.Channels {
 		c := e.st.Chans[id]
 		if unit := id; op.skips(unit) || (c.Lease != 0 && op.skips(e.st.group(id))) {
-			continue
+			if !op.Masked {
+				continue
+			}
+			masked = append(masked, e.keys[id])
 		}
 		sp := spec(c)
 		smp := make([][]byte, len(op.TS))
@@ -245,7 +250,12 @@ func (e *env) buildFrame(w *WState, op Op) frame.Frame {
 		keys = append(keys, e.keys[id])
 		series = append(series, telem.Series{DataType: telem.DataType(c.DT), Data: tsm.Encode(c.DT, smp)})
 	}
-	return frame.NewMulti(keys, series)
+	fr := frame.NewMulti(keys, series)
+	if len(masked) > 0 {
+		e.rep.Class("masked-frame")
+		fr = fr.ExcludeKeys(masked)
+	}
+	return fr
 }
 
 // readResult is what one iterator pass returned.
